@@ -23,6 +23,7 @@ def main(argv=None):
     ap.add_argument('--seed', type=int, default=int(os.environ.get('VERIF_SEED', '0') or 0))
     ap.add_argument('--no-verify-replay', action='store_true')
     ap.add_argument('--stride', type=int, default=1, help='take every k-th job of the plan (self-tests)')
+    ap.add_argument('--target-runs', type=int, help='sample the plan evenly down to about N jobs (self-tests)')
     ap.add_argument('--dump-digests', help='write per-run event-log digests to this file (self-tests)')
     args = ap.parse_args(argv)
     if args.prop not in MODULES:
@@ -34,7 +35,7 @@ def main(argv=None):
         if args.replay:
             return core.do_replay(module, args.replay)
         return core.run_check(module, args.tier, args.seed, workers=args.workers, runs=args.runs,
-                              verify_replay=not args.no_verify_replay, stride=args.stride, dump=args.dump_digests)
+                              verify_replay=not args.no_verify_replay, stride=(-args.target_runs if args.target_runs else args.stride), dump=args.dump_digests)
     except core.HarnessError as e:
         print('HARNESS-ERROR %s' % e)
         return 2
